@@ -8,33 +8,23 @@ namespace Jap.Validate
 
 /-! ## well-formed field lists -/
 
-/-- what the signature styles can express: an `Optional` field has a default (a parameter `x: Optional[int]` without
-    default is given the default `None` by `_add_signature_parameter`, it cannot be required), and a field with a default
-    is not named `_...` (such parameters are skipped) -/
-def wfField (f : Field) : Bool :=
-  !(f.ty = .optInt && f.default.isNone) && !(f.default.isSome && f.name.front = '_')
+/-- a field with a default (declared, or `None` derived for an Optional annotation) is not named `_...`: such parameters are
+    skipped by `_add_signature_parameter` -/
+def wfField (f : Field) : Bool := !((normOptD f.ty f.default).isSome && f.name.front = '_')
 
 def wfFields (fields : List Field) : Bool := !fields.isEmpty && fields.all wfField
 
-theorem sigParam_wf {f : Field} (h : wfField f = true) : sigParam f = some f := by
-  obtain ⟨name, ty, d⟩ := f
+theorem sigParam_wf {f : Field} (h : wfField f = true) : sigParam f = some (normOpt f) := by
   unfold wfField at h
-  unfold sigParam
-  cases d with
-  | none =>
-    by_cases hty : ty = .optInt
-    · simp [hty] at h
-    · simp only [hty, if_false, Option.isSome_none, Bool.false_and, Bool.false_eq_true]
-  | some v =>
-    by_cases hc : name.front = '_'
-    · simp only [Option.isSome_some, Bool.true_and, hc, decide_true, Bool.not_true, Bool.and_false, Bool.false_eq_true] at h
-    · simp only [Option.isSome_some, Bool.true_and, hc, decide_false, Bool.false_eq_true, if_false]
+  unfold sigParam normOpt
+  simp only [Bool.not_eq_true'] at h
+  simp only [h, Bool.false_eq_true, if_false]
 
-theorem filterMap_sigParam : ∀ {fields : List Field}, fields.all wfField = true → fields.filterMap sigParam = fields
+theorem filterMap_sigParam : ∀ {fields : List Field}, fields.all wfField = true → fields.filterMap sigParam = fields.map normOpt
   | [], _ => rfl
   | f :: r, h => by
     simp only [List.all_cons, Bool.and_eq_true] at h
-    simp only [List.filterMap_cons, sigParam_wf h.1]
+    simp only [List.filterMap_cons, sigParam_wf h.1, List.map_cons]
     rw [filterMap_sigParam h.2]
 
 /-! ## the tables -/
@@ -45,9 +35,9 @@ theorem inner_entry_eq (key : String) (f : Field) :
         optKeys := (addArgument f.name f.name f.ty f.default).1.optKeys.map (fun o => key ++ "." ++ o) } : Entry)
       = (addArgument f.name (key ++ "." ++ f.name) f.ty f.default).1 := by
   unfold addArgument
-  by_cases h : f.ty = .listInt
+  by_cases h : hasPlus f.ty = true
   · simp [h, String.append_assoc]
-  · simp only [h, if_false, List.map_cons, List.map_nil]
+  · simp [h]
 
 theorem inner_required_eq (key : String) : ∀ (fields : List Field),
     ((fields.map fun f => (addArgument f.name f.name f.ty f.default).2).flatten).map (fun x => key ++ "." ++ x)
@@ -70,10 +60,10 @@ theorem declInner_eq (key : String) (fields : List Field) :
   · exact inner_required_eq key fields
 
 theorem declClass_eq (key : String) {fields : List Field} (h : wfFields fields = true) :
-    declClassArgs key fields = { declDotted key fields with whole := some key } := by
+    declClassArgs key fields = { declDotted key (fields.map normOpt) with whole := some key } := by
   simp only [wfFields, Bool.and_eq_true, Bool.not_eq_true'] at h
   unfold declClassArgs declDotted
-  simp only [filterMap_sigParam h.2, h.1, Bool.false_eq_true, if_false]
+  simp only [filterMap_sigParam h.2, h.1, Bool.false_eq_true, if_false, List.map_map]
 
 /-! ## the parse fold does not look at the whole-group option unless an item uses it -/
 
